@@ -15,7 +15,8 @@ RULE = (
     "datatype occurrences of the largest statement) x frame sizes 1..250 x delimited / non-delimited flat x reader "
     "(parse_jelly_flat, parse_jelly_to_graph, sink.parse). Oracle: parsed sequence == input sequence term by term. "
     "Plus a bounded-exhaustive sweep: all sequences of <= 2 (quick) / <= 3 (thorough) statements over a 3-IRI / 2-literal "
-    "alphabet x presets {8/0/1, 8/3/1, 8/4/2} x frame sizes {1, 250}. "
+    "alphabet x presets {8/0/1, 8/3/1, 8/4/2} x frame sizes {1, 250}; and eight fixed streams of 700..4600 statements that fill "
+    "and recycle tables of 128/32/32, 4000/150/32, 4096/150/32 and 4096/4096/4096 entries. "
     "non-trivial = >=2 statements and (eviction seen by the reference decoder's audit, or an elided term, or >=2 "
     "frames, or a quoted triple, or a generalized position); distinct by case hash."
 )
@@ -50,6 +51,8 @@ def body(case, acc):
 
 
 def check_case(case):
+    if "big_index" in case:
+        return body(list(big_cases())[case["big_index"]], None)
     return body(case, None)
 
 
@@ -94,7 +97,46 @@ def run_sweep(spec) -> Acc:
     return acc
 
 
+def big_cases():
+    """Streams large enough to fill and recycle default-sized tables (ids up to 4096 / 150 / 32 on the wire)."""
+    for names, prefixes, dts, n in ((4096, 150, 32, 4600), (4000, 150, 32, 4300), (128, 32, 32, 700), (4096, 4096, 4096, 4400)):
+        stmts = []
+        for i in range(n):
+            s_ = ["iri", "http://ns%d.example/%s" % (i % (prefixes + 7), "n%d" % (i * 7 % (names + 300)))]
+            p_ = ["iri", "http://ex.org/p/%d" % (i % 5)]
+            o_ = ["lit", str(i), None, "http://ex.org/dt/%d" % (i % (dts + 3))] if i % 3 == 0 else ["iri", "http://ex.org/o#%d" % (i % (names + 1))]
+            stmts.append([s_, p_, o_])
+        for phys in ("TRIPLES", "QUADS"):
+            st2 = stmts if phys == "TRIPLES" else [[*x, ["iri", "http://g.example/%d" % (k % 9)]] for k, x in enumerate(stmts)]
+            yield {"integration": "generic", "entry": "stream_frames_gen", "phys": phys, "logical": 1 if phys == "TRIPLES" else 2,
+                   "delimited": True, "frame_size": 250, "preset": [names, prefixes, dts],
+                   "params": {"generalized": True, "rdf_star": True, "stream_name": ""}, "statements": st2, "reader": "flat",
+                   "big": True}
+
+
+def run_big(spec) -> Acc:
+    acc = Acc()
+    acc.MAX_SAMPLES = 0
+    known = set(spec["known"])
+    for i, case in enumerate(big_cases()):
+        if i % spec["of"] != spec["idx"]:
+            continue
+        v = body(case, None)
+        acc.evaluations += 1
+        acc.counters["big_stream_cases"] += 1
+        acc.nontrivial.add("big%d" % i)
+        if v is not None:
+            v.case = {"big_index": i}
+            if v.signature in known:
+                acc.known_hits[v.signature] += 1
+            else:
+                acc.violations.append(v.to_json())
+    return acc
+
+
 def run_shard(spec) -> Acc:
+    if spec.get("part") == "big":
+        return run_big(spec)
     if spec.get("part") == "sweep":
         return run_sweep(spec)
     acc = Acc()
@@ -108,4 +150,5 @@ def plan(tier, seed):
     specs = [{"shard": i, "n": n, "max_len": 14 if tier == "quick" else 40} for i in range(16)]
     k = 4 if tier == "quick" else 16
     specs += [{"part": "sweep", "idx": i, "of": k, "max_len": 2 if tier == "quick" else 3} for i in range(k)]
+    specs += [{"part": "big", "idx": i, "of": 4} for i in range(4)]
     return specs
